@@ -227,9 +227,18 @@ def derive_table(kind, classes):
             own = c["generic"] is not None       # P[int] is a real class, only Generic[...] is an alias
         else:
             own = has_alias
-        mro = c3_merge([[i]] + [table[b["cls"]]["mro"] for b in bases] + [[b["cls"] for b in bases]])
-        if mro is None:
+        # C3 over the real `__bases__`: `Generic` ("G") stands where `Generic[...]` is written, the kind's root
+        # class ("R": tuple / BaseModel) in front of it for classes without a model base
+        direct = [b["cls"] for b in bases]
+        if not bases and kind in ("namedtuple", "pydantic"):
+            direct.append("R")
+        if c["generic"] is not None:
+            direct.append("G")
+        pseudo = {"R": ["R"], "G": ["G"]}
+        full = c3_merge([[i]] + [pseudo[d] if d in pseudo else table[d]["full_mro"] for d in direct] + [direct])
+        if full is None:
             return None
+        mro = [x for x in full if x not in pseudo]
         if len({b["cls"] for b in bases}) != len(bases):
             return None
         table.append({
@@ -239,6 +248,7 @@ def derive_table(kind, classes):
             "bases": [] if kind == "typeddict" else          # a TypedDict's `__bases__` is `(dict,)`
                      [dict(b) if kind == "pydantic" else {"cls": b["cls"], "args": None} for b in bases],
             "mro": mro,
+            "full_mro": full,
             "ann": [list(kv) for kv in c["ann"]],
         })
     return table
@@ -524,15 +534,17 @@ def gen_arg(rng, scope, param):
 
 def gen_classes(rng, kind, n_max=6):
     """an abstract class table; mostly valid by construction, validity is decided by derive_table + real build"""
-    n = rng.randint(1, n_max)
+    n = rng.randint(1, n_max) if rng.random() < 0.2 else rng.randint(3, n_max)
     classes, params_of, keys_of, depth_of = [], [], [], []
     for i in range(n):
         # ---- bases
-        nb = 0 if i == 0 else rng.choice([1, 1, 1, 2, 2, 0] if kind != "namedtuple" else [1])
+        nb = 0 if i == 0 else rng.choice([1, 1, 1, 2, 2, 2, 0] if kind != "namedtuple" else [1])
         cands = [j for j in range(i) if depth_of[j] < 4]
         if kind == "namedtuple" and i > 0:
             cands = cands or [0]
         base_ids = rng.sample(cands, min(nb, len(cands))) if cands else []
+        if base_ids and (i - 1) in cands and (i - 1) not in base_ids and rng.random() < 0.5:
+            base_ids[0] = i - 1                      # deepen the chain
         scope_n = rng.choice([0, 1, 1, 2, 2, 3])
         scope = rng.sample(range(len(TVS)), scope_n)
         bases = []
@@ -674,6 +686,111 @@ FAMILIES = [
 ]
 
 
+def features(table, tgt):
+    """what the hierarchy below the target exercises (reported in the evidence as input distribution)"""
+    anc = table[tgt["cls"]]["mro"]
+    depth = {}
+    for c in sorted(anc):
+        depth[c] = 1 + max([depth.get(b["cls"], 0) for b in eff_orig(table, c)], default=0)
+    out = [f"feat:depth-{max(depth.values())}", f"feat:arity-{max(len(table[c]['params']) for c in anc)}"]
+    for c in anc:
+        t = table[c]
+        bases = eff_orig(table, c)
+        if len(bases) > 1:
+            out.append("feat:multiple-bases")
+            seen = set()
+            for b in bases:
+                m = set(table[b["cls"]]["mro"])
+                if seen & m:
+                    out.append("feat:diamond")
+                seen |= m
+        for b in bases:
+            if b["args"] is None and table[b["cls"]]["params"]:
+                out.append("feat:bare-generic-base")
+            if b["args"] is not None:
+                kinds = {bool(h_tvs(a)) for a in b["args"]}
+                if kinds == {True, False}:
+                    out.append("feat:partial-binding")
+                if any("tv" not in a and h_tvs(a) for a in b["args"]):
+                    out.append("feat:nested-argument")
+                tvs_in_args = [a["tv"] for a in b["args"] if "tv" in a]
+                if tvs_in_args and tvs_in_args != [p for p in t["params"] if p in tvs_in_args]:
+                    out.append("feat:re-ordered-parameters")
+        inherited = {k for b in bases for k in field_keys(table, b["cls"])}
+        for k, h in t["ann"]:
+            if k in inherited:
+                out.append("feat:shadowing-generic" if h_is_generic(h) else "feat:shadowing-closed")
+        if t["orig"] is None and bases:
+            out.append("feat:no-own-orig-bases")
+    if tgt["args"] is None and table[tgt["cls"]]["params"]:
+        out.append("feat:bare-generic-target")
+    if tgt["args"] is not None and any(h_tvs(a) for a in tgt["args"]):
+        out.append("feat:typevar-target")
+    return sorted(set(out))
+
+
+def gen_systematic(thorough):
+    """every two-class chain over a small vocabulary (and, in the thorough tier, every three-class chain / diamond
+    built from it): parent arity 1-2, how the child binds each parameter, re-ordering, shadowing, bare use"""
+    parents = [
+        {"bases": [], "generic": [0], "ann": [["a", TV(0)], ["b", A("int")]]},
+        {"bases": [], "generic": [0], "ann": [["a", G("List", [TV(0)])]]},
+        {"bases": [], "generic": [4], "ann": [["a", TV(4)]]},
+        {"bases": [], "generic": [6], "ann": [["a", G("Optional", [TV(6)])]]},
+        {"bases": [], "generic": [0, 1], "ann": [["a", TV(0)], ["b", G("Dict", [A("str"), TV(1)])]]},
+        {"bases": [], "generic": [1, 0], "ann": [["a", TV(0)], ["b", G("list", [TV(1)])]]},
+        {"bases": [], "generic": [0, 1], "ann": [["a", G("tuple", [TV(1), TV(0)])]]},
+    ]
+    arg_choices = [A("int"), A("str"), TV(2), TV(3), G("List", [TV(2)])]
+    own_choices = [[], [["c", TV(2)]], [["a", A("bool")]], [["a", G("List", [TV(2)])]], [["a", TV(3)], ["c", A("str")]]]
+
+    def children(parent):
+        ps = parent["generic"]
+        yield {"bases": [{"cls": 0, "args": None}], "generic": None, "ann": []}
+        yield {"bases": [{"cls": 0, "args": None}], "generic": [2], "ann": [["c", TV(2)]]}
+        for args in itertools.product(arg_choices, repeat=len(ps)):
+            args = [a if TV_DECLS[p]["bound"] is None and not TV_DECLS[p]["constraints"]
+                    else (admissible(p)[0] if "tv" in a or "o" in a else admissible(p)[-1]) for p, a in zip(ps, args)]
+            used = []
+            for a in args:
+                for v in h_tvs(a):
+                    if v not in used:
+                        used.append(v)
+            for own in own_choices:
+                own_tvs = [v for _, h in own for v in h_tvs(h)]
+                need = used + [v for v in own_tvs if v not in used]
+                generics = [None] if not need else [need, list(reversed(need))] if len(need) > 1 else [need]
+                if need and need == used:
+                    generics.append(None)          # parameters collected from the bases, no Generic[...]
+                for g in generics:
+                    if g is None and set(own_tvs) - set(used):
+                        continue
+                    yield {"bases": [{"cls": 0, "args": list(args)}], "generic": g, "ann": [list(x) for x in own]}
+
+    for parent in parents:
+        for child in children(parent):
+            classes = [parent, child]
+            yield classes
+            if thorough:
+                # a grandchild that binds the child's parameters, and a diamond sibling
+                for g_args in ([A("bool")], [TV(1)]):
+                    yield classes + [{"bases": [{"cls": 1, "args": None}], "generic": None, "ann": []}]
+                    yield classes + [{"bases": [{"cls": 1, "args": None}, {"cls": 0, "args": None}],
+                                      "generic": None, "ann": []}]
+                    break
+
+
+def systematic_targets(table):
+    out = []
+    for c in range(len(table)):
+        ps = table[c]["params"]
+        out.append({"cls": c, "args": None})
+        if ps:
+            out.append({"cls": c, "args": [admissible(p)[0] for p in ps]})
+            out.append({"cls": c, "args": [admissible(p)[-1] for p in ps]})
+    return out
+
+
 def namedtuple_ok(classes):
     """NamedTuple subclasses re-annotate only (see ASSUMPTIONS); multiple inheritance is not generated for it"""
     if any(len(c["bases"]) > 1 for c in classes):
@@ -802,7 +919,8 @@ def run_case(ctx: Ctx, real: Real, kind, classes, targets, origin, want_model=Tr
     except Exception as e:
         ctx.dist[f"unbuildable-{kind}-{type(e).__name__}"] += 1
         return []
-    h_json = {"kind": kind, "tvars": TV_DECLS, "classes": table}
+    h_json = {"kind": kind, "tvars": TV_DECLS,
+              "classes": [{k: v for k, v in t.items() if k != "full_mro"} for t in table]}
     out = []
     # ---- python facts: the table the model receives is what the interpreter really built
     for i in range(len(rcls)):
@@ -834,7 +952,8 @@ def run_case(ctx: Ctx, real: Real, kind, classes, targets, origin, want_model=Tr
             definer(table, tgt["cls"], k) != tgt["cls"] and h_is_generic(own_ann(table, definer(table, tgt["cls"], k), k))
             for k in declared)
         ctx.note_case(case, nontrivial=inherited_generic, kind=f"{kind}-{'bare' if tgt['args'] is None else 'param'}")
-        ctx.dist[f"depth-{max(len(t['mro']) for t in table)}"] += 0  # placeholder keeps key order stable
+        for feat in features(table, tgt):
+            ctx.dist[feat] += 1
         bad = oracle_types(ctx, kind, table, tgt, declared, obs, case)
         if not bad and all(closed(h) for h in declared.values() if h is not None):
             oracle_load(ctx, real, kind, table, rcls, tgt, tp, declared, case)
@@ -1086,6 +1205,20 @@ def gen_cases(ctx: Ctx, n_random):
             if kind == "namedtuple" and not namedtuple_ok(classes):
                 continue
             yield kind, classes, targets, f"family:{name}"
+    # exhaustive over the small vocabulary; the kind rotates so every kind sees every shape over 5 seeds,
+    # the thorough tier runs every shape for every kind
+    for idx, classes in enumerate(gen_systematic(ctx.tier == "thorough")):
+        if ctx.tier != "thorough" and (idx // len(KINDS)) % 2 != ctx.seed % 2:
+            continue                                   # quick: half of the shapes per seed
+        kinds = KINDS if ctx.tier == "thorough" else [KINDS[(idx + ctx.seed // 2) % len(KINDS)]]
+        for kind in kinds:
+            if kind == "namedtuple" and not namedtuple_ok(classes):
+                kind = "dataclass"
+            table = derive_table(kind, classes)
+            if table is None:
+                ctx.dist["rejected-by-python-rules"] += 1
+                continue
+            yield kind, classes, systematic_targets(table), "systematic"
     for _ in range(n_random):
         kind = rng.choice(KINDS)
         classes = gen_classes(rng, kind)
@@ -1109,11 +1242,11 @@ def run(ctx: Ctx):
             drv = None
     suite_implicit(ctx, real, drv)
     items = []
-    for kind, classes, targets, origin in gen_cases(ctx, ctx.budget(900, 14000)):
+    for kind, classes, targets, origin in gen_cases(ctx, ctx.budget(1000, 14000)):
         got = run_case(ctx, real, kind, classes, targets, origin)
         items += got
-        for it in got[:1]:
-            ctx.sample({"suite": it[0], "case": it[1]}, every=397)
+        for it in got[-1:]:
+            ctx.sample({"suite": it[0], "case": it[1], "real": _obs_repr(it[3])}, every=397)
         if len(items) >= 4000:
             process(ctx, drv, items)
             items = []
@@ -1130,6 +1263,9 @@ def run(ctx: Ctx):
                 ctx.dist["malformed-rejected-by-python"] += 1
     process(ctx, drv, items)
     ctx.extra["exhaustive"] = False
+    ctx.extra["exhaustive_part"] = ("every two-class chain over 7 parents x 5 argument choices per parameter x 5 child "
+                                    "bodies x Generic[...] orders (quick: half of the shapes per seed parity, kinds rotate with the seed; all kinds and shapes in "
+                                    "thorough, which also adds a grandchild and a diamond per chain)")
 
 
 def search(ctx: Ctx):
